@@ -124,3 +124,42 @@ Proof.
         replace (qi * qi + w * w - qi * qi) with (w * w) by ring. apply sqrt_square. lra. }
   rewrite Hlast, Hfirst. field. lra.
 Qed.
+
+(* ---- slit, perfect resolution: weight one on the first entry of q_calc equal to the data q ---- *)
+Lemma sumT_zeros {A} (r : list A) : sumT ROps (map (fun _ => zero ROps) r) = 0.
+Proof. induction r as [|x r IH]; cbn [map sumT]; [reflexivity|]. rewrite IH. cbn [add zero ROps]. ring. Qed.
+
+Lemma apply_zeros theory {A} (r : list A) :
+  sumT ROps (map (fun '(t, w) => mul ROps t w) (combine theory (map (fun _ => zero ROps) r))) = 0.
+Proof.
+  revert r. induction theory as [|t th IH]; intros [|x r]; cbn [map combine sumT]; try reflexivity.
+  rewrite IH. cbn [add mul zero ROps]. ring.
+Qed.
+
+Theorem first_match_sum1 qi : forall q_calc, In qi q_calc -> sumLR (first_match ROps q_calc qi) = 1.
+Proof.
+  intros q_calc. rewrite sumL_sumT. induction q_calc as [|qc r IH]; intros Hin; [destruct Hin|].
+  cbn [first_match]. destruct (eqb ROps qc qi) eqn:E.
+  - cbn [sumT]. rewrite sumT_zeros. cbn [add one ROps]. ring.
+  - destruct Hin as [->|Hin]; [assert (Reqb qi qi = true) by (apply Reqb_true; reflexivity); cbn [eqb ROps] in E; congruence|].
+    cbn [sumT]. rewrite (IH Hin). cbn [add zero ROps]. ring.
+Qed.
+
+Theorem first_match_nonneg qi : forall q_calc, Forall (fun x => 0 <= x) (first_match ROps q_calc qi).
+Proof.
+  induction q_calc as [|qc r IH]; [constructor|]. cbn [first_match]. destruct (eqb ROps qc qi).
+  - constructor; [cbn; lra|]. apply Forall_forall. intros y Hy. apply in_map_iff in Hy. destruct Hy as [_ [<- _]]. cbn; lra.
+  - constructor; [cbn; lra|exact IH].
+Qed.
+
+(* the unsmeared value, exactly, however often the q value occurs in q_calc *)
+Theorem first_match_reproduces (f : R -> R) qi : forall q_calc, In qi q_calc ->
+  apply ROps (map f q_calc) (first_match ROps q_calc qi) = f qi.
+Proof.
+  intros q_calc. unfold apply. rewrite sumL_sumT. induction q_calc as [|qc r IH]; intros Hin; [destruct Hin|].
+  cbn [first_match map]. destruct (eqb ROps qc qi) eqn:E.
+  - cbn [eqb ROps] in E. apply Reqb_true in E. subst qc. cbn [combine map sumT].
+    rewrite (apply_zeros (map f r) r). cbn [add mul one ROps]. ring.
+  - destruct Hin as [->|Hin]; [assert (Reqb qi qi = true) by (apply Reqb_true; reflexivity); cbn [eqb ROps] in E; congruence|].
+    cbn [combine map sumT]. rewrite (IH Hin). cbn [add mul zero ROps]. ring.
+Qed.
